@@ -213,7 +213,7 @@ def run(eng, R):
     check_flagged("matrix constraint:matrix(cov)", cw, "matrix", lambda v: "cov_mat" in v)
     check_flagged("matrix constraint:uncertainties", cw, "uncertainties")
     we = helpers_w[0]
-    src = " ".join(ast.unparse(we.node).split())
+    src = common.src_of(we.node)
     R.ob("E4", "error source:error_value", "if _is_relative: _err_val = _err_obj.error_rel else: _err_val = _err_obj.error" in src.replace("\n", " "), (we.file, we.lineno),
          "write_errors_to_yaml must write the relative error values of a relative source and the absolute ones otherwise")
     R.ob("E4", "error source:matrix", "if _is_relative: _yaml_section[-1]['matrix'] = _err_obj.cov_mat_rel else: _yaml_section[-1]['matrix'] = _err_obj.cov_mat" in src, (we.file, we.lineno),
@@ -320,7 +320,7 @@ def run(eng, R):
     R.ob("E10", "write_errors_to_yaml:collapse", not tol, (we.file, we.lineno), "write_errors_to_yaml collapses error vectors with a tolerance (%s): vectors of small, different uncertainties come back as a constant" % tol)
 
     # ---------------------------------------------------------------- E8
-    src = " ".join(ast.unparse(fr.node).split())
+    src = common.src_of(fr.node)
     R.ob("E8", "FitYamlReader:param model", "_fit_object._param_model = _read_parametric_model" not in src or ("_on_error_change_callback = _fit_object._on_error_change" in src and "_fit_object._on_error_change()" in src),
          (fr.file, fr.lineno), "the reader replaces the fit's parametric model without wiring it to the fit's error-change callback / invalidating the error nodes")
     R.ob("E8", "FitYamlReader:constraints", "_fit_object._fit_param_constraints = [" not in src or "_fit_object._on_constraint_change()" in src, (fr.file, fr.lineno),
